@@ -7,8 +7,8 @@ import CifModel.Model.StoreStep
 
   `storeOps`: every `SOp` becomes the one `Store.Op` of the API function the C calls at that place:
 
-      mkBlock code            ↦ mkBlock 0 ⟨norm code, code, valid⟩          cif_create_block            (returns handle #chs)
-      mkFrame parent code     ↦ mkFrame h(parent) ⟨norm code, code, valid⟩  cif_container_create_frame  (returns handle #chs)
+      mkBlock code len        ↦ mkBlock 0 ⟨norm code, code, valid⟩ len          cif_create_block(_internal)            (returns handle #chs)
+      mkFrame parent code len ↦ mkFrame h(parent) ⟨norm code, code, valid⟩ len  cif_container_create_frame(_internal)  (returns handle #chs)
       setVal path n v         ↦ setVal h(path) ⟨norm n, n, valid⟩ (some v)  cif_container_set_value
       mkLoop path names       ↦ mkLoop h(path) none names                   cif_container_create_loop   (returns loop handle #lhs)
       addPkt path values      ↦ addPkt l(path) (keys of the loop's names zipped with the values)   cif_loop_add_packet
@@ -16,9 +16,9 @@ import CifModel.Model.StoreStep
 
   `h(path)` = the number of the handle the creation of that container returned, `l(path)` = the handle of the loop created last in
   that container (the one parse_loop_packets fills).  Names travel as the store model wants them: (normalised key, spelling,
-  verdict of cif_is_valid_name).  NOT expressible (`none`): the lenient creations (`cif_create_block_internal(…, 1, …)` after a
-  reported invalid code, the anonymous block) — `Store.Op.mkBlock / mkFrame` are the validating functions — and an op on a container
-  that was not created in this parse (pre-existing content).
+  verdict of cif_is_valid_name); the lenient creations (`cif_create_block_internal(…, 1, …)` after a reported invalid code, the
+  anonymous block) are `Store.Op.mkBlock / mkFrame` with the `lenient` flag (group gX).  NOT expressible (`none`): an op on a container
+  that was not created in this history (cannot happen: `cifOps` in front builds pre-existing content).
 
   `storeAgrees`: the history runs without a failing call and the store then SHOWS (`Store.abs`) the CIF the parser model built.
   Executed by the driver on every request of family `parse` with a fresh target (`sto=` field); the theorem that it always holds is
@@ -45,14 +45,12 @@ def mkName (o : Opts) (forItem : Bool) (s : Str) : Store.Name := { key := o.norm
 /-- one call, and the handle tables afterwards; `none`: not expressible as a `Store.Op` -/
 def storeOp (o : Opts) (m : HMap) : SOp → Option (Store.Op × HMap)
   | .mkBlock code lenient =>
-    if lenient then none
-    else some (.mkBlock 0 (some (mkName o false code)), { m with chs := ([o.norm code], m.nCh) :: m.chs, nCh := m.nCh + 1 })
+    some (.mkBlock 0 (some (mkName o false code)) lenient, { m with chs := ([o.norm code], m.nCh) :: m.chs, nCh := m.nCh + 1 })
   | .mkFrame parent code lenient =>
-    if lenient then none
-    else match m.ch parent with
-      | none => none
-      | some h => some (.mkFrame h (some (mkName o false code)),
-                        { m with chs := (parent ++ [o.norm code], m.nCh) :: m.chs, nCh := m.nCh + 1 })
+    match m.ch parent with
+    | none => none
+    | some h => some (.mkFrame h (some (mkName o false code)) lenient,
+                      { m with chs := (parent ++ [o.norm code], m.nCh) :: m.chs, nCh := m.nCh + 1 })
   | .setVal path n v =>
     match m.ch path with
     | none => none
@@ -80,6 +78,23 @@ def storeOpsFrom (o : Opts) : HMap → List SOp → Option (List Store.Op)
 /-- **the API calls of a parse as a history of the store model**, behind the creation of the CIF itself -/
 def storeOps (o : Opts) (trace : List SOp) : Option (List Store.Op) :=
   (storeOpsFrom o {} trace).map (Store.Op.cifNew :: ·)
+
+/-- the container whose loop the call creates / fills -/
+def lastPath : Option SOp → Option Path
+  | some (.mkLoop p _) => some p
+  | some (.addPkt p _) => some p
+  | _ => none
+
+/-- parse_loop: cif_container_create_loop, then the packets of that loop, no other store call in between — every
+    cif_loop_add_packet directly follows the create_loop / add_packet of the same container.  Hypothesis of the composition theorems
+    (`C03_parser_store_refines_covered_partial`) as long as it is not proved of every trace; evaluated by the driver on every
+    request of family `parse` (`sto=BADshape`). -/
+def shapedFrom : Option SOp → List SOp → Bool
+  | _, [] => true
+  | last, op :: r =>
+    (match op with
+     | .addPkt p _ => lastPath last == some p
+     | _ => true) && shapedFrom (some op) r
 
 /-- the store after the history, and whether every call returned CIF_OK -/
 def storeRun (ops : List Store.Op) : Option Store.Store × Bool :=
@@ -111,8 +126,8 @@ mutual
     | .mk code fs ls =>
       let path := (parent.getD []) ++ [o.norm code]
       let create := match parent with
-        | none => SOp.mkBlock code false
-        | some p => SOp.mkFrame p code false
+        | none => SOp.mkBlock code (!isValidName false code)      -- an invalid code can only have come from a lenient creation
+        | some p => SOp.mkFrame p code (!isValidName false code)
       match loopsOps path ls, containersOps o (some path) fs with
       | some a, some b => some (create :: a ++ b)
       | _, _ => none
